@@ -202,8 +202,8 @@ class C17(Suite):
     corr = ("NamespaceManager.bind/_store_bind/compute_qname/compute_qname_strict/qname/curie/normalizeUri/"
             "expand_curie/reset, split_uri, is_ncname, insert_trie/insert_strie/get_longest_namespace, "
             "Memory.bind/prefix/namespace/namespaces (and SimpleMemory)")
-    quick_n = 1200
-    thorough_n = 30000
+    quick_n = 800
+    thorough_n = 20000
 
     # case = {"store": "memory"|"simple", "ops": [op...]}
     # op = ["bind", prefix|None, ns, override, replace, via_graph] | ["qname", iri, via_graph] | ["curie", iri, gen]
@@ -370,8 +370,8 @@ class C17Conf(Suite):
     kf = "conf_kf"
     kf_ids = {3: "F6d"}
     corr = "Graph.bind/parse/serialize, NamespaceManager with bind_namespaces=rdflib|core|none (conformance only)"
-    quick_n = 250
-    thorough_n = 4000
+    quick_n = 80
+    thorough_n = 2000
     timeout_s = 20.0
 
     # case = {"defaults": ..., "iris": [...], "ops": [...]}; ops as in C17 plus
